@@ -107,31 +107,33 @@ def gen_xs(rng, cfg, n=None, maxlen=12):
 
 
 # ---------------------------------------------------------------- implementation side
-def build(cfg):
+def build(cfg, variant=0):
+    """variant picks how the same configuration is written down by the caller: keyword arguments or the documented
+    positional order (test, estim, bet, u, N, t, random_order); Python floats or numpy scalars"""
     NonnegMean = NM()
     k = cfg["kind"]
     N = cfg["N"] if cfg["N"] is not None else np.inf
-    kw = {kk: float(v) for kk, v in cfg["p"].items()}
-    base = dict(u=(int(cfg["u"]) if cfg.get("int_u") else float(cfg["u"])), N=N, t=float(cfg["t"]), random_order=cfg["ro"])
-    if k == "alpha_fixed":
-        return NonnegMean(test=NonnegMean.alpha_mart, estim=NonnegMean.fixed_alternative_mean, **base, **kw)
-    if k == "alpha_shrink":
-        return NonnegMean(test=NonnegMean.alpha_mart, estim=NonnegMean.shrink_trunc, **base, **kw)
-    if k == "alpha_optcomp":
-        return NonnegMean(test=NonnegMean.alpha_mart, estim=NonnegMean.optimal_comparison, **base, **kw)
-    if k == "bet_fixed":
-        return NonnegMean(test=NonnegMean.betting_mart, bet=NonnegMean.fixed_bet, **base, **kw)
-    if k == "bet_agrapa":
-        return NonnegMean(test=NonnegMean.betting_mart, bet=NonnegMean.agrapa, **base, **kw)
-    if k == "kk":
-        return NonnegMean(test=NonnegMean.kaplan_kolmogorov, **base, **kw)
-    if k == "km":
-        return NonnegMean(test=NonnegMean.kaplan_markov, **base, **kw)
-    if k == "kw":
-        return NonnegMean(test=NonnegMean.kaplan_wald, **base, **kw)
-    if k == "sprt":
-        return NonnegMean(test=NonnegMean.wald_sprt, **base, **kw)
-    raise ValueError(k)
+    num = (lambda v: np.float64(float(v))) if variant % 5 == 3 else (lambda v: float(v))
+    kw = {kk: num(v) for kk, v in cfg["p"].items()}
+    u = int(cfg["u"]) if cfg.get("int_u") else num(cfg["u"])
+    parts = {"alpha_fixed": ("alpha_mart", "fixed_alternative_mean", None), "alpha_shrink": ("alpha_mart", "shrink_trunc", None),
+             "alpha_optcomp": ("alpha_mart", "optimal_comparison", None), "bet_fixed": ("betting_mart", None, "fixed_bet"),
+             "bet_agrapa": ("betting_mart", None, "agrapa"), "kk": ("kaplan_kolmogorov", None, None),
+             "km": ("kaplan_markov", None, None), "kw": ("kaplan_wald", None, None), "sprt": ("wald_sprt", None, None)}
+    if k not in parts:
+        raise ValueError(k)
+    tn, en, bn = parts[k]
+    test = getattr(NonnegMean, tn)
+    estim = getattr(NonnegMean, en) if en else None
+    bet = getattr(NonnegMean, bn) if bn else None
+    if variant % 3 == 1:     # positional, in the documented order
+        return NonnegMean(test, estim, bet, u, N, num(cfg["t"]), cfg["ro"], **kw)
+    extra = {}
+    if estim is not None:
+        extra["estim"] = estim
+    if bet is not None:
+        extra["bet"] = bet
+    return NonnegMean(test=test, u=u, N=N, t=num(cfg["t"]), random_order=cfg["ro"], **extra, **kw)
 
 
 def retarget(obj, cfg):
@@ -144,15 +146,37 @@ def retarget(obj, cfg):
         setattr(obj, kk, float(v))
 
 
+_BUFFERS = {}
+
+
 def as_input(cfg, xs, variant=0):
-    """The sample as the caller might hold it: float ndarray (default), and — when every value is an integer — an int
-    ndarray or a list of Python ints (0/1 votes are naturally integers).  Kaplan-Markov/Wald need an ndarray."""
+    """The sample as the caller might hold it: float ndarray (default; every other time the SAME buffer object of that
+    length, refilled in place, as a caller streaming batches would), and — when every value is an integer — an int64 /
+    int8 / bool ndarray, a list or a tuple of Python ints (0/1 votes are naturally integers or booleans).
+    Kaplan-Markov/Wald need an ndarray."""
     allint = all(F(v).denominator == 1 for v in xs)
-    if allint and variant % 3 == 1:
-        return np.array([int(v) for v in xs], dtype=np.int64)
-    if allint and variant % 3 == 2 and cfg["kind"] not in ("km", "kw"):
-        return [int(v) for v in xs]
-    return np.array([float(v) for v in xs])
+    zero_one = allint and all(v in (0, 1) for v in xs)
+    seq_ok = cfg["kind"] not in ("km", "kw")
+    v = variant % 7
+    if allint and v == 1:
+        return np.array([int(v_) for v_ in xs], dtype=np.int64)
+    if allint and v == 2 and seq_ok:
+        return [int(v_) for v_ in xs]
+    if zero_one and v == 3 and cfg["kind"] not in ("alpha_shrink", "bet_agrapa"):
+        # (welford_mean_var subtracts consecutive entries: numpy itself refuses `bool - bool` with a TypeError, so a
+        #  boolean array is not an input the shrink/aGRAPA rules accept; the refusal is clean and is not counted)
+        return np.array([bool(v_) for v_ in xs], dtype=bool)
+    if allint and v == 4 and all(abs(v_) < 100 for v_ in xs):
+        return np.array([int(v_) for v_ in xs], dtype=np.int8)
+    if allint and v == 5 and seq_ok:
+        return tuple(int(v_) for v_ in xs)
+    if variant % 2 == 0:
+        buf = _BUFFERS.get(len(xs))
+        if buf is None:
+            buf = _BUFFERS[len(xs)] = np.zeros(len(xs))
+        buf[:] = [float(v_) for v_ in xs]
+        return buf
+    return np.array([float(v_) for v_ in xs])
 
 
 def run_impl(cfg, xs, obj=None, variant=0):
@@ -165,7 +189,7 @@ def run_impl(cfg, xs, obj=None, variant=0):
     try:
         with warnings.catch_warnings():
             warnings.simplefilter("ignore")
-            tst = obj if obj is not None else build(cfg)
+            tst = obj if obj is not None else build(cfg, variant)
             p1, hist1 = tst.test(x)
             p, hist = tst.test(x)
             same = (nanclose(float(p1), float(p)) and len(np.atleast_1d(hist1)) == len(np.atleast_1d(hist))
@@ -281,7 +305,7 @@ def corr_cases(rng, n, kinds=None, reuse_frac=0.15, maxlen=12):
                 # parameters of cfg0 that cfg does not mention keep their old value in the instance: mirror that
                 retarget(obj, cfg)
                 tag = "reused"
-        cases.append({"cfg": cfg, "xs": xs, "impl": run_impl(cfg, xs, obj, variant=rng.randint(0, 5)), "tag": tag})
+        cases.append({"cfg": cfg, "xs": xs, "impl": run_impl(cfg, xs, obj, variant=rng.randint(0, 209)), "tag": tag})
     return cases
 
 
